@@ -189,7 +189,7 @@ Proof.
 Qed.
 
 (* ---- the write loop accepts a request ---- *)
-Lemma core_inv_waccept : forall cfg s c, core_inv cfg s -> core_inv cfg (step_waccept c s).
+Lemma core_inv_waccept : forall cfg s c, core_inv cfg s -> core_inv cfg (step_waccept cfg c s).
 Proof.
   intros cfg s c Hinv. unfold step_waccept.
   destruct (writer s); try assumption.
